@@ -352,6 +352,7 @@ pub fn property(tier: Tier) -> Property {
     }
     // streams longer than 72 wire bytes get one deviation less (the number of chunkings with k cuts
     // grows as len^k); every single cut position is still covered for them
+    let long_threshold = tier.q(72usize, 40usize);
     let (dec_cases, long_cases): (Vec<DecCase>, Vec<DecCase>) = dec_cases.into_iter().partition(|c| {
         let len: usize = c
             .enc_case
@@ -362,12 +363,12 @@ pub fn property(tier: Tier) -> Property {
                 5 + c.enc_case.enc.map(|e| comp::compress(e, &s).len()).unwrap_or(s.len())
             })
             .sum();
-        c.drip || c.free || c.fixed.is_some() || len <= 72
+        c.drip || c.free || c.fixed.is_some() || len <= long_threshold
     });
     let long_sec = Section::new(
         "decode-long",
         Config { max_bound: tier.q(1, 2), ..Default::default() },
-        "as section decode, for streams longer than 72 wire bytes: every chunking with <= bound cuts / Pending / empty-frame deviations (bound one less than for short streams). Non-trivial = at least one chunk boundary fell strictly inside a frame.",
+        "as section decode, for streams longer than 72 (quick) / 40 (thorough) wire bytes: every chunking with <= bound cuts / Pending / empty-frame deviations (bound one less than for short streams). Non-trivial = at least one chunk boundary fell strictly inside a frame.",
         long_cases,
         |c: &DecCase| format!("prost={} settings={:?} msgs={:?} enc={} response={} free={} drip={}", c.enc_case.prost, c.enc_case.settings, c.enc_case.msgs.iter().map(|m| m.len()).collect::<Vec<_>>(), enc_name(c.enc_case.enc), c.response, c.free, c.drip),
         dec_body,
